@@ -11,9 +11,17 @@ PID = "C18"
 NL = {"lf": "\n", "crlf": "\r\n", "cr": "\r", "ff": "\f"}
 
 
-def swap_names(lines):
-    """user-chosen names get a '-'/'_' pair: odd occurrences '-', even occurrences '_' (they must mean the same)"""
+def swap_names(lines, lead=False):
+    """user-chosen names get a '-'/'_' pair: odd occurrences '-', even occurrences '_' (they must mean the same);
+    lead: the pair is the first character of variable names ($-x / $_x)"""
     count = {}
+    if lead:
+        def rep1(m):
+            name = m.group(0)
+            k = count.get(name, 0)
+            count[name] = k + 1
+            return "$" + ("-" if k % 2 == 0 else "_") + name[1:]
+        return [re.sub(r"\$[a-z]\b(?![-\w])", rep1, ln) for ln in lines]
 
     def rep(m):
         name = m.group(0)
@@ -30,12 +38,12 @@ def swap_names(lines):
 
 def apply(lines, d, syntax):
     lines = list(lines)
-    if d["swap"]:
+    if d["swap"] in (True, "mid"):
         lines = swap_names(lines)
+    elif d["swap"] == "lead":
+        lines = swap_names(lines, lead=True)
     if d["pad"] == "spaces":
-        # (left open: trailing white space after `@content(args)` in the indented syntax, which grass rejects with
-        #  "expected newline." and whose reference behaviour could not be established offline)
-        lines = [ln if ln.strip().startswith("@content") else ln + (" \t" if i % 2 else "  ") for i, ln in enumerate(lines)]
+        lines = [ln + (" \t" if i % 2 else "  ") for i, ln in enumerate(lines)]
     elif d["pad"] in ("blank", "wsblank", "comment"):
         out = []
         for i, ln in enumerate(lines):
@@ -101,14 +109,17 @@ def run(ctx):
         # plain CSS mode on the SCSS rendering
         ids.append(len(jobs))
         jobs.append({"id": len(jobs), "src": "\n".join(c["scss"]) + "\n", "syntax": "css"})
+        # ... and the same behind a statement at-rule
+        ids.append(len(jobs))
+        jobs.append({"id": len(jobs), "src": "@layer a, b;\n" + "\n".join(c["scss"]) + "\n", "syntax": "css"})
         plan.append((c, vs, ids))
     res = C.run_cases(jobs, PID)
     tpath = os.path.join(C.WORK, "trace-C18-%d.ndjson" % os.getpid())
     with open(tpath, "w") as f:
         for pi, (c, vs, ids) in enumerate(plan):
-            variants = [obs(res[i]) for i in ids[:-1]]
+            variants = [obs(res[i]) for i in ids[:-2]]
             ctx.count(c["scss"], nontrivial=bool(variants[0]["css"].strip() or variants[0]["msgs"]))
-            f.write(json.dumps({"id": pi, "variants": variants, "ascss": obs(res[ids[-1]]), "sassonly": bool(c.get("sassonly")),
+            f.write(json.dumps({"id": pi, "variants": variants, "ascss": obs(res[ids[-2]]), "ascss2": obs(res[ids[-1]]), "sassonly": bool(c.get("sassonly")),
                                 "plain": not c.get("sassonly") and not c.get("nested")}) + "\n")
     tr = C.tlc("Trace_Agree", workers=1, dfs=True, env={"TRACE": tpath}, timeout=3000, heap="12g")
     ctx.add_tlc(tr)
@@ -126,7 +137,7 @@ def run(ctx):
                 rp.update({"variant": {"syntax": vs[bad][0], "descriptor": vs[bad][1]}, "job": jobs[ids[bad]], "variant_obs": obs(res[ids[bad]]),
                            "variant_err": (res[ids[bad]].get("err") or {}).get("message")})
             else:
-                rp.update({"css_mode_obs": obs(res[ids[-1]])})
+                rp.update({"css_mode_obs": obs(res[ids[-2]]), "css_mode_after_statement_at_rule": obs(res[ids[-1]])})
             ctx.violation("variants of one program disagree" if not v["agree"] else "plain-CSS mode behaviour", rp)
     c, vs, ids = plan[len(plan) // 2]
     ctx.sample({"scss": c["scss"], "sass": c["sass"], "descriptor": vs[2][1], "variant_text": jobs[ids[2]]["src"]})
